@@ -6,7 +6,7 @@
 
 const char *CHK_RULE = "one case = one history: generated table, 1..10 request lines, events triggered at random service steps and from handlers, random write/read "
                        "back-pressure; non-trivial = both producers emitted at least one unit in the history; distinct by (units per producer, contention pattern, "
-                       "refusal count bucket, table size)";
+                       "refusal count bucket, table size, run-length sequence of producers in the output stream = the interleaving observed)";
 void chk_describe(FILE *f) { eng_describe(f); }
 
 /* deterministic sweep: one event triggered at service step k, one write-refusal run of length L at write attempt p, against a line with a
@@ -47,7 +47,7 @@ static void sweep_case(long item)
 }
 struct case_budget chk_budget(const char *tier)
 {
-        struct case_budget b = { (long)SW_K * SW_P * 3, strcmp(tier, "thorough") == 0 ? 800000 : 40000 };
+        struct case_budget b = { (long)SW_K * SW_P * 3, strcmp(tier, "thorough") == 0 ? 4000000 : 100000 };
         return b;
 }
 void chk_run_case(uint64_t seed, long c, bool is_sweep)
@@ -68,7 +68,11 @@ void chk_run_case(uint64_t seed, long c, bool is_sweep)
                 CNT("histories_with_both_producers");
                 uint64_t h = hash_u64((uint64_t)na, 11); h = hash_u64((uint64_t)nu, h); h = hash_u64((uint64_t)(cont > 8 ? 8 : cont), h);
                 h = hash_u64((uint64_t)(ref > 64 ? 64 : ref / 4), h); h = hash_u64(W.ncmds, h);
-                nontrivial(h);
+                /* the interleaving actually observed: run-length sequence of producers in the output stream */
+                uint64_t il = 7; size_t run = 0;
+                for (size_t i = 0; i < OUTN; i++) { if (i && OUTP[i] != OUTP[i - 1]) { il = hash_u64(run * 2 + (OUTP[i - 1] == 'A'), il); run = 0; } run++; }
+                DSET("distinct_producer_interleavings", il);
+                nontrivial(hash_u64(il, h));
         }
         if (cont > 0) CNT("histories_with_contention");
         if (sample_wanted() && na && nu) {
